@@ -505,6 +505,9 @@ pub fn gen_p_family(prop: &str, seed: u64, pf: &PProfile) -> Plan {
                     let ttl = if rng.chance(pf.ttl_pct, 100) { gen_ttl_value(&mut rng).min(20 * SEC) } else { 0 };
                     let cost = if cfg.coster && rng.chance(1, 3) {
                         0
+                    } else if rng.chance(1, 40) {
+                        // enormous but representable costs (sums stay far below i64::MAX; see DESIGN.md §7)
+                        *rng.pick(&[1i64 << 40, (1i64 << 40) + 7, 1i64 << 33])
                     } else if rng.chance(1, 14) {
                         0 // no Coster: a charged cost of exactly zero when internal cost is ignored
                     } else if over && rng.chance(1, 12) {
